@@ -93,6 +93,13 @@ func genLabelProg(t *rapid.T, mode int, org int64, withFar bool) Prog {
 			p.Items = append(p.Items, Item{Kind: ItStmt, Text: fmt.Sprintf("RESB %d", rapid.SampledFrom([]int{0, 1, 2, 3, 7, 16, 18, 100, 126, 127, 128, 129, 300}).Draw(t, "resb")), Cls: "resb"})
 		case k == 5: // ALIGNB
 			p.Items = append(p.Items, Item{Kind: ItStmt, Text: fmt.Sprintf("ALIGNB %d", rapid.SampledFrom([]int{1, 2, 4, 8, 16}).Draw(t, "alignb")), Cls: "alignb"})
+		case k == 6 && rapid.IntRange(0, 2).Draw(t, "equalias") == 0: // EQU standing for a label (+ constant)
+			// (an alias of label+constant is reported by gosk as an operand it cannot parse, so only the plain alias is used)
+			nm := genName(t, "equname", used)
+			reg := regsOf(16)[rapid.IntRange(0, 7).Draw(t, "er2")]
+			p.Items = append(p.Items, Item{Kind: ItEqu, Name: nm, Text: lab}, Item{Kind: ItMarker, Ser: ser},
+				Item{Kind: ItStmt, Text: fmt.Sprintf("MOV %s,%s", reg, nm), Cls: "equ.alias", Ref: lab, RefAs: "mov16:" + reg, Ser: ser})
+			ser++
 		case k == 6: // EQU + use
 			nm := genName(t, "equname", used)
 			v := rapid.SampledFrom([]int64{0, 1, 0x7f, 0x80, 0xff, 0x100, 0x7fff}).Draw(t, "equv")
